@@ -38,9 +38,11 @@ def run(pid, tier, replay):
     binp = core.build("rules")
     if replay:
         return do_replay(chk, binp, replay)
+    rm.stage(chk, "start")
     quick = chk.quick
     # One TLC run over the rule universe: the specification's own laws (MC_RuleStr: ParseRule(RuleStr(r)) = r, the
     # unescaped spelling is wrong exactly when a value has an apostrophe, ...) and every rule emitted as a case.
+    rm.stage(chk, "build")
     cases = chk.path("cases.ndjson")
     g, n = core.tlc_generate("mc/MC_RuleStr.tla", "mc/MC_RuleStr_gen_%s.cfg" % ("quick" if quick else "thorough"), cases,
                              timeout=3000)
@@ -48,17 +50,20 @@ def run(pid, tier, replay):
         raise core.ToolError("MC_RuleStr emitted no case")
     chk.add_tlc(g)
     chk.add("mc_states", g.distinct)
+    rm.stage(chk, "tlc-gen")
     obs = chk.path("obs.ndjson")
     core.run_bin(binp, ["rulestr-obs", cases, obs])
     if sum(1 for _ in open(obs)) != n:
         raise core.ToolError("harness answered fewer lines than the %d cases" % n)
-    nr = 3000 if quick else 150000
+    nr = 2400 if quick else 150000
     robs = chk.path("obs_rand.ndjson")
     core.run_bin(binp, ["rulestr-rand", nr, chk.seed, robs])
     with open(obs, "a") as f, open(robs) as g2:
         for line in g2:
             f.write(line)
+    rm.stage(chk, "observe")
     out, lines = rm.validate(chk, "RuleStrCheck", obs, shards=5 if quick else 14, tags=("MISMATCH", "NOTE"))
+    rm.stage(chk, "tlc-check")
     classify(chk, out["MISMATCH"], lines)
     chk.add("enumerated_cases", n)
     chk.add("random_cases", len(lines) - n)
